@@ -17,7 +17,7 @@ use crate::common::frequency_sketch::verif_sketch as sk;
 use crate::verif_models::common::{instant_at, le};
 use std::hash::BuildHasherDefault;
 
-pub(crate) use crate::verif_models::common::{ConstH, IdH, Val, HK, MAXN, W1, WT_A, WT_Z, YEARS_1000};
+pub(crate) use crate::verif_models::common::{ConstH, IdH, Val, HK, MAXN, W1, WT_A, WT_B, WT_Z, YEARS_1000};
 
 type C<S> = Cache<u8, Val, BuildHasherDefault<S>>;
 type T = (u64, u32); // ghost time: seconds, nanoseconds since the harness origin
@@ -346,7 +346,7 @@ pub(crate) fn compare<S: HK>(c: &C<S>, e: &G, nkeys: usize) {
     // --- counters (C10) against what is physically held
     chk!(c.cache.len() as u64 == cnt, "C01: map holds a key outside the harness universe");
     chk!(c.entry_count == cnt, "C10: entry_count != number of entries physically held");
-    chk!(c.weighted_size == sum, "C10: weighted_size != sum of the weights physically held");
+    chk!(c.weighted_size == sum, "C10,C03: weighted_size != sum of the weights physically held (remaining room would be computed from phantom weight)");
     chk!(cnt == e.count() && sum == e.total_weight(), "C10,C03: physical contents differ from the model");
     // --- access-order deque: well-formed, exactly the residents' nodes, in the model's recency order
     let (nodes, an, ok) = dq::walk::<KeyHashDate<u8>, MAXN>(&c.deques.probation);
@@ -391,6 +391,26 @@ pub(crate) fn compare<S: HK>(c: &C<S>, e: &G, nkeys: usize) {
 // ================================================================================================
 
 /// get(k): k = resident j (j < n) or the absent key n. Purge is replaced (see `no_purge`).
+/// what evict_lru_entries() does first in every operation: drop the shortest LRU prefix covering the excess
+fn lru_evict_ghost(e: &mut G, n: usize) {
+    if let Some(cap) = e.cap {
+        let g = *e;
+        let need = g.total_weight().saturating_sub(cap);
+        let mut freed = 0u64;
+        let mut i = 0;
+        while i < n { if g.present[i] && freed < need { freed += g.w[i] as u64; e.remove(i); } i += 1; }
+    }
+}
+/// a grown update of the MRU resident happened just before (concrete growth): state is over capacity
+fn grow_mru<S: HK>(st: &mut St<S>, n: usize, grow: u32) {
+    if n > 0 && grow > 0 {
+        let key = (n - 1) as u8;
+        st.c.cache.get_mut(&key).unwrap().set_policy_weight(st.g.w[n - 1] + grow);
+        st.c.weighted_size += grow as u64;
+        st.g.w[n - 1] += grow;
+    }
+}
+
 fn purge_ghost(e: &mut G, n: usize) {
     let g = *e;
     let mut i = 0;
@@ -415,6 +435,50 @@ fn op_get<S: HK>(cfg: &Cfg, j: usize, real_purge: bool) {
     }
     compare(&st.c, &e, cfg.n + 1);
     let _ = live;
+    std::mem::forget(st);
+}
+
+/// get(j) from a state left over capacity by a grown update: the excess goes first, then the lookup.
+fn op_get_overcap<S: HK>(cfg: &Cfg, j: usize, grow: u32) {
+    let mut st = build::<S>(cfg);
+    grow_mru(&mut st, cfg.n, grow);
+    let mut e = st.g;
+    let key = j as u8;
+    let got = st.c.get(&key).copied();
+    lru_evict_ghost(&mut e, cfg.n);
+    e.sk_inc = true;
+    e.sk_hash = S::h(key);
+    if j < cfg.n && e.present[j] {
+        chk!(got == Some(st.g.v[j]), "C01,C03: get of a live resident does not return its latest value");
+        if e.has_exp { e.la[j] = e.now; }
+        e.touch_ao(j);
+    } else {
+        chk!(got.is_none(), "C01,C04: get returns an entry that had to be evicted for capacity");
+    }
+    compare(&st.c, &e, cfg.n + 1);
+    chk!(st.c.weighted_size <= st.g.cap.unwrap() || e.ao_n == 0, "C04: the excess of a grown update must be removed by the following operation");
+    std::mem::forget(st);
+}
+
+/// insert(new key) from a state left over capacity by a grown update (the insert itself must evict first).
+fn op_insert_overcap<S: HK>(cfg: &Cfg, cls: u8, grow: u32) {
+    let mut st = build::<S>(cfg);
+    let n = cfg.n;
+    grow_mru(&mut st, n, grow);
+    let mut e = st.g;
+    let key = n as u8;
+    let nv = Val { cls, data: kani::any() };
+    let wc = st.g.weigh(n, nv);
+    st.c.insert(key, nv);
+    lru_evict_ghost(&mut e, n);
+    // concrete shapes used here leave room for the newcomer after the eviction
+    let ws = e.total_weight();
+    chk!(ws + wc as u64 <= e.cap.unwrap(), "VERIF-BOUND: shape must leave room after the eviction");
+    e.present[n] = true; e.v[n] = nv; e.w[n] = wc; e.la[n] = e.now; e.lm[n] = e.now;
+    e.ao[e.ao_n] = key; e.ao_n += 1;
+    if e.has_ttl { e.wo[e.wo_n] = key; e.wo_n += 1; }
+    compare(&st.c, &e, n + 1);
+    chk!(st.c.weighted_size <= st.g.cap.unwrap(), "C04: resident weight stays above max_capacity after an insert that follows a grown update");
     std::mem::forget(st);
 }
 
@@ -692,6 +756,14 @@ uh!(invalidate_if_n2_m0011, 6, op_invalidate_if::<IdH>(&cfg(2, Some(2), false, W
 uh!(invalidate_if_n2_m1100, 6, op_invalidate_if::<IdH>(&cfg(2, Some(2), false, W1, false, false, WO_ID, false), Some(0b1100)));
 uh!(invalidate_if_n2_sym, 6, op_invalidate_if::<IdH>(&cfg(2, Some(2), false, W1, false, false, WO_ID, false), None));
 uh!(iter_n2, 6, op_iter::<IdH>(&cfg(2, Some(2), false, W1, false, false, WO_ID, true)));
+// over-capacity pre-states (a grown update just happened): 3 + (5+4) = 12 > 8
+uh!(get_hit1_n2_w_overcap, 6, op_get_overcap::<IdH>(&cfg(2, Some(9), true, WT_A, false, false, WO_ID, false), 1, 4));
+uh!(get_hit0_n2_w_overcap_evicted, 6, op_get_overcap::<IdH>(&cfg(2, Some(9), true, WT_A, false, false, WO_ID, false), 0, 4));
+uh!(insert_new_n2_w_overcap, 6, op_insert_overcap::<IdH>(&cfg(2, Some(11), true, WT_A, false, false, WO_ID, false), 0, 4));   // 3 + (5+4) = 12 > 11: evict key 0; newcomer (w 2) then fits exactly
+// update to a weight above max_capacity (20 > 8): the new value replaces the old one at once
+uh!(insert_upd0_n2_w_oversize, 6, op_insert::<IdH>(&cfg(2, Some(8), true, WT_B, false, false, WO_ID, false), 0, 1));
+// no covering prefix: residents 3+5 = 8 < newcomer 9 <= capacity 9: must be rejected, nobody touched
+uh!(insert_new_n2_w_no_prefix, 6, op_insert::<IdH>(&cfg(2, Some(9), true, WT_B, false, false, WO_ID, false), 2, 1));
 // colliding hasher: admission with identical estimates
 uh!(insert_new_n2_full_collide, 6, op_insert::<ConstH>(&cfg(2, Some(2), false, W1, false, false, WO_ID, false), 2, 0));
 
